@@ -11,9 +11,77 @@ from recdev import RecordingDevice
 NAMES = {id(ec.spc): "spc", id(ec.sbc): "sbc", id(ec.ssc): "ssc", id(ec.smc): "smc", id(ec.mmc): "mmc"}
 
 
+class RealDevices(object):
+    """three objects of the real device class of one transport over the stub binding; .fill / .log per device like the recording device"""
+
+    def __init__(self, kind):
+        import os
+        import tempfile
+        self.kind = kind
+        self.fills = [None, None, None]
+        self.logs = [[], [], []]
+        if kind == "sg":
+            import sgio
+            from pyscsi.pyscsi.scsi_device import SCSIDevice
+            self.dir = tempfile.mkdtemp(prefix="verif-att-", dir="/dev/shm")
+            self.devs = []
+            for i in range(3):
+                node = os.path.join(self.dir, "sg%d" % i)
+                open(node, "wb").close()
+                self.devs.append(SCSIDevice(node, detect_replugged=False))
+
+            def target(cdb, dout, din):
+                f = sgio.LOG[-1]["file"]
+                i = next(k for k, dv in enumerate(self.devs) if dv._file is f)
+                self.logs[i].append(dict(cdb=bytes(cdb)))
+                return ("fill", self.fills[i](None)) if self.fills[i] else ("good",)
+            sgio.DEVICE = target
+        else:
+            import iscsi
+            from pyscsi.pyiscsi.iscsi_device import ISCSIDevice
+            self.dir = None
+            self.devs = [ISCSIDevice("iscsi://127.0.0.1/iqn.verif/%d" % i, "iqn.init") for i in range(3)]
+
+            def target(cdb, dout, din):
+                i = iscsi.LOG[-1]["lun"]
+                self.logs[i].append(dict(cdb=bytes(cdb)))
+                return 0, None, (self.fills[i](None) if self.fills[i] else None)
+            iscsi.DEVICE = target
+
+    def close(self):
+        import shutil
+        import sgio
+        import iscsi
+        for d in self.devs:
+            try:
+                d.close()
+            except Exception:  # noqa
+                pass
+        sgio.DEVICE = iscsi.DEVICE = None
+        if self.dir:
+            shutil.rmtree(self.dir, ignore_errors=True)
+
+
+class DevView(object):
+    """device i of a RealDevices set, with the .fill / .log interface the history loop uses"""
+
+    def __init__(self, real, i):
+        self.real, self.i, self.dev = real, i, real.devs[i]
+
+    @property
+    def log(self):
+        return self.real.logs[self.i]
+
+    def set_fill(self, fn):
+        self.real.fills[self.i] = fn
+
+
 def main():
     out = []
     for hist in json.load(sys.stdin):
+        if hist and hist[0].get("real"):
+            out.append(real_history(hist))
+            continue
         devs = [RecordingDevice(ec.spc) for _ in range(3)]
         facade = None
         res = []
@@ -45,6 +113,33 @@ def main():
                             cdbs=[list(x["cdb"]) for x in sent], facade_dev=devs.index(facade.device) if facade else None))
         out.append(res)
     print(json.dumps(out))
+
+
+def real_history(hist):
+    """the same over three objects of the real SCSIDevice / ISCSIDevice class (what is stored on a device object must belong to THAT object)"""
+    real = RealDevices(hist[0]["real"])
+    views = [DevView(real, i) for i in range(3)]
+    facade, res = None, []
+    try:
+        for step in hist:
+            v = views[step["dev"]]
+            b0 = step["b0"]
+            v.set_fill(lambda cmd, b0=b0: bytes([b0]) + bytes(95))
+            n0 = len(v.log)
+            try:
+                if facade is None or step["new_facade"]:
+                    facade = SCSI(v.dev, 512)
+                else:
+                    facade(v.dev)
+                exc = None
+            except Exception as e:  # noqa
+                exc = type(e).__name__
+            sent = v.log[n0:]
+            res.append(dict(exc=exc, sets=[NAMES.get(id(d.opcodes), "?") for d in real.devs], n_sent=len(sent),
+                            cdbs=[list(x["cdb"]) for x in sent], facade_dev=real.devs.index(facade.device) if facade else None))
+    finally:
+        real.close()
+    return res
 
 
 if __name__ == "__main__":
